@@ -101,6 +101,8 @@ ObsChecksIx(o, pfx, ix) ==
    <<pfx \o "PredNoDup", \A n \in Nodes : Len(o.pred[n]) = Cardinality(Rng(o.pred[n]))>>,
    <<pfx \o "ByDigest", IsOci => /\ Rng(o.byindex) = ix
                                  /\ Rng(o.byblob) = Present \ ix>>,
+   \* resolving a digest gives a plain descriptor (digest, media type, size) however the layout was opened
+   <<pfx \o "ByDigestPlain", Rng(o.notplain) = {}>>,
    <<pfx \o "TagList", IsOci => Rng(o.taglist) = {r \in Refs : tags[r] # 0}>>}
 
 ObsChecks(o, pfx) == ObsChecksIx(o, pfx, indexed)
